@@ -42,6 +42,9 @@ class MemVal(InMemoryData):
         super().__init__()
         self.tree = tree
 
+    def __len__(self):
+        return 0      # a result object that is a collection, here an EMPTY one: falsy, but a result like any other
+
 
 class Unserializable:
     pass
